@@ -12,6 +12,9 @@ import (
 	"time"
 )
 
+// Seed (VERIF_SEED) is passed to the solvers' random seeds; verdicts do not depend on it, models may.
+var Seed int
+
 type Result int
 
 const (
@@ -73,6 +76,9 @@ func NewSession(kind string, timeoutMs int) (*Session, error) {
 		s.send(fmt.Sprintf("(set-option :timeout %d)\n", timeoutMs))
 	}
 	s.send("(set-option :produce-models true)\n")
+	if Seed != 0 && kind != "cvc5" {
+		s.send(fmt.Sprintf("(set-option :random_seed %d)\n(set-option :sat.random_seed %d)\n(set-option :smt.random_seed %d)\n", Seed, Seed, Seed))
+	}
 	return s, nil
 }
 
